@@ -42,7 +42,8 @@ EventVerdict ==
                         ELSE [a \in 1..NA |-> NoStepV(a)]))
       [] OTHER -> "UnknownProp"
 
-Init == /\ tid \in 1..Len(Traces) /\ l = 1 /\ steps = 0 /\ viol = "ok"
+Init == /\ tid \in 1..Len(Traces) /\ l = 1 /\ viol = "ok"
+        /\ steps = Traces[tid].steps0      \* refinement steps done by earlier training calls on this generator
         /\ st = [a \in 1..Len(Traces[tid].axes) |->
                    [order |-> Traces[tid].axes[a].init, cur |-> Traces[tid].axes[a].cur0,
                     act |-> ActOfMask(Traces[tid].axes[a].mask0)]]
